@@ -99,6 +99,8 @@ def generate(seed, tier='quick'):
     # the queue's scheduler (and with it the start-up listing) may come up
     # a moment after the first messages are handed over, so that the listing
     # runs while a write is between its two files
+    if rng.random() < 0.3:
+        scn['short_writes'] = rng.choice([2, 3, 5])
     scn['start_delay'] = rng.choice([0.0, 0.0, 0.0005, 0.001, 0.002, 0.004,
                                      0.008])
     qc.finish(scn)
